@@ -310,6 +310,9 @@ def run(ctx, rep):
 
     iolib.count_rules(ctx, rep, "C02")
     cachelib.cache_rules(ctx, rep, "C02")
+    # the header fields are written from the integers the enums carry: a truncating `as` on the way silently changes the code written
+    from rules import castlib
+    rep.floor("C02.cast", "narrowing casts inspected", castlib.cast_audit(ctx, rep, "C02", ["stream.rs", "crc.rs"]), 3)
 
     # ---- C02.fixed -------------------------------------------------------------------------------------------------
     fc = F.statics.get("stream::SubframeHeaderType::FIXED_COEFFS")
@@ -467,3 +470,4 @@ def run(ctx, rep):
     C08.protocol(ctx, rep, "C02.front")
     from rules import C09 as _C09
     compose(ctx, rep, "C09", "C02.layout", r"^C09\.(carve|order|start)$")
+    compose(ctx, rep, "C01", "C02.enc", r"^C01\.(corr|zero|slot|wasted|fallback)$")
